@@ -17,7 +17,11 @@ def worker(args, scratch):
 
     def bump(k, n=1):
         cnt[k] = cnt.get(k, 0) + n
-    w = wproxy.World(scratch)
+    def handler(name, req):
+        if (req.header("x-vf-id") or b"").endswith(b"-hca"):
+            return {"status": 200, "body": b"bye", "close": True}      # answers, then closes its side without saying so
+        return wproxy.World.default_handler(name, req)
+    w = wproxy.World(scratch, handler=handler)
     try:
         callers = [w.identity("root", "helper", []), w.identity("alice", "tool", []), w.identity("gidzero", "x", [])]
         keys = {}
@@ -69,6 +73,11 @@ def worker(args, scratch):
                         val = "Azure-HMAC-SHA256 00000000-0000-0000-0000-000000000000 " + "ab" * 32
                     hs.append((casemix(r, name), val))
                     spoofs.append((name, val))
+            if r.random() < 0.12:
+                # the client nominates the proxy-owned headers as hop-by-hop headers of ITS connection: the proxy's own copies on the
+                # upstream leg are not the client's to remove
+                hs.append((casemix(r, "connection"), ", ".join(["keep-alive"] + [casemix(r, nme) for nme in OWNED if r.random() < 0.8])))
+                cnt["requests_nominating_owned_headers_in_connection_header"] = cnt.get("requests_nominating_owned_headers_in_connection_header", 0) + 1
             r.shuffle(hs)
             hs.append(("x-vf-id", vid))
             method, target = r.choice([("GET", "/a?b=1"), ("POST", "/x"), ("PUT", "/vmAgentLog"), ("POST", "/machine/?comp=telemetrydata"), ("GET", "/metadata/instance")])
@@ -133,6 +142,46 @@ def worker(args, scratch):
                 if len(res["samples"]) < 2:
                     res["samples"].append(wit)
             bump("spoofed_copies", len(spoofs))
+        # ---- the host closes its side of the connection without announcing it; the client goes on using its keep-alive connection and
+        # supplies an authorization header of its own: whatever the proxy does with the later request (gateway error, re-connect), a request
+        # that reaches the host carries the proxy's headers and the proxy's signature
+        hc_guid = "cccccccc-1111-4000-8000-%012x" % args["shard"]
+        keys[hc_guid] = "%064x" % r.getrandbits(256)
+        w.key(hc_guid, keys[hc_guid])
+        for k in range(8 if args["tier"] == "quick" else 60):
+            who = callers[0]
+            conn = w.open("imds", who)
+            base = "c05-%d-hc%d" % (args["shard"], k)
+            try:
+                conn.send(rawhttp.build_request("GET", "/hc/first", [("x-vf-id", base + "-hca")]))
+                conn.read_response()
+                time.sleep(0.05 + 0.1 * r.random())
+                spoof = "Azure-HMAC-SHA256 00000000-0000-0000-0000-000000000000 " + "ab" * 32
+                conn.send(rawhttp.build_request(r.choice(["GET", "POST"]), "/hc/second?k=%d" % k, [("x-vf-id", base + "-hcb"), ("x-ms-azure-host-authorization", spoof),
+                                                                                                     ("x-ms-azure-host-claims", '{ "isRoot": "true"}')]))
+                try:
+                    conn.read_response()
+                except Exception:  # noqa
+                    pass
+            except Exception:  # noqa
+                pass
+            conn.close()
+            res["evaluations"] += 1
+            bump("requests_after_the_host_silently_closed_its_connection")
+            for u in w.upstream(base + "-hcb"):
+                bump("requests_after_silent_host_close_that_reached_the_host")
+                wit = {"id": base + "-hcb", "received_head": u.raw_head.decode("latin-1"), "history": "host closed its connection after the previous response; client sent its own authorization header"}
+                auths = u.headers_named("x-ms-azure-host-authorization")
+                if len(auths) != 1:
+                    res["violations"].append(["authorization-header-count-%d-on-signed" % len(auths), wit])
+                elif b"00000000-0000-0000-0000-000000000000" in auths[0]:
+                    res["violations"].append(["client-authorization-reached-host-on-signed", wit])
+                elif sig.verify(u, keys)[0] not in ("ok", "ok-lenient"):
+                    res["violations"].append(["signed-request-does-not-verify:%s" % sig.verify(u, keys)[0], wit])
+                for nme in OWNED[:2]:
+                    if len(u.headers_named(nme)) != 1:
+                        res["violations"].append(["%s-header-count-%d" % ("claims" if nme.endswith("claims") else "date", len(u.headers_named(nme))), wit])
+            res["nontrivial"].append("host-silent-close-%d" % (k % 8))
         for t in slow_threads:
             t.join()
         for vid, t0, t1, who in slow_results:
